@@ -196,4 +196,54 @@ def St.stat (s : St) (name : String) (follow : Bool) : StatOut :=
     | .ok (_, n) => s.statNode n
   else s.statNode (lookup s.names name)
 
+/-! ## positional access through a handle, per driver -/
+
+open Compio.Gen.OpTable (Driver)
+
+def two63 : Nat := 2 ^ 63
+def minusOne : Nat := 2 ^ 64 - 1
+
+/-- what a positional read of `total` offered bytes (`nIov` ranges, `vectored`) at `pos` sees:
+`Except errno (file bytes, effective position, whether the handle position advances)`.
+Kernel rules reproduced: `EBADF` without read access, `EISDIR` on a directory (a vectored read offering
+0 bytes returns 0 instead), `EINVAL` for a negative `loff_t` or `pos + total` beyond it.
+Driver differences reproduced as the code has them (findings C08b, C08c): io_uring completes a single
+0-byte read on a directory with 0, and takes offset `u64::MAX` (-1) for "use and advance the file position". -/
+def readView (d : Driver) (s : St) (h : Handle) (pos total : Nat) (vectored : Bool) :
+    Except Nat (Bytes × Nat × Bool) :=
+  if !h.r then .error EBADF else
+  match h.ino with
+  | none =>
+    if total = 0 ∧ (vectored ∨ d = .iour) then .ok ([], 0, false) else .error EISDIR
+  | some i =>
+    if pos = minusOne ∧ d = .iour then .ok (s.content i, h.pos, true)
+    else if pos ≥ two63 then .error EINVAL
+    else if pos + total > two63 - 1 then .error EINVAL
+    else .ok (s.content i, pos, false)
+
+def advancePos (s : St) (hid : Nat) (h : Handle) (adv : Bool) (n : Nat) : St :=
+  if adv then { s with handles := insert s.handles hid { h with pos := h.pos + n } } else s
+
+/-- write positions/lengths beyond this are not executed by the harness (sparse giant files, `EFBIG`/`SIGXFSZ`) -/
+def writeLimit : Nat := 2 ^ 24
+
+/-- positional write of `data`; offset `u64::MAX` is -1: `EINVAL` from `pwrite`, "use and advance the file
+position" for io_uring (finding C08c) -/
+def writeAtPos (d : Driver) (s : St) (hid : Nat) (h : Handle) (ino pos : Nat) (data : Bytes) : St × String :=
+  if pos = minusOne then
+    match d with
+    | .poll => (s, s!"err {EINVAL}")
+    | .iour =>
+      let s := s.setContent ino (pwrite (s.content ino) h.pos data)
+      (advancePos s hid h true data.length, s!"ok {data.length}")
+  else (s.setContent ino (pwrite (s.content ino) pos data), s!"ok {data.length}")
+
+/-- sequential `Read`/`Write` through `AsyncFd` on a regular file, as the drivers have it (finding C08a):
+io_uring submits the entry without an offset, i.e. offset 0, whatever the file position is; the polling
+driver asks epoll to watch the descriptor, which fails with `EPERM` for a regular file -/
+def seqOffset (d : Driver) (_filePos : Nat) : Except Nat Nat :=
+  match d with
+  | .iour => .ok 0
+  | .poll => .error EPERM
+
 end Compio.FileRef
